@@ -239,7 +239,9 @@ CLAIMED = {
          'admits the method and does not fail softly answers; no match => 404; matched-but-not-admitted => 405 whose '
          'Allow is exactly the union of the methods of the path-matching routes; otherwise the most recent non-breaking '
          'error; GET implies HEAD, method comparison case-insensitive, no methods admits all, unknown method => '
-         'InvalidMethod; HTTP_METHODS (regenerated from route.py) is the standard nine. Tie: translator (tables, '
+         'InvalidMethod; HTTP_METHODS (regenerated from route.py) is the standard nine; COMPOSED WITH C05 '
+         '(C06_first_answerer_from_patterns): with the match bits computed from the declared patterns by the pattern model, the '
+         'answering route is the first whose verdict stops, its pattern is assigned the path\'s segments and it admits the method. Tie: translator (tables, '
          'normalize_path) + differential run of the extracted model against real applications (tables built by '
          'constructor and by add(entry, index) sequences, request sequences, header markers).'),
    note=COMMON_NOTE + DISPATCH_NOTE,
